@@ -703,5 +703,95 @@ class FBDensity(common.Suite):
         return f"gamma~{case['gamma_target']:.3g}" if abs(case["gamma_target"]) < 1e3 else "gamma-clipped"
 
 
+class FBSequence(common.Suite):
+    """several steps with masses / mass-scaling power / delta / temperature / forces changed through the public API
+    BETWEEN steps: every step must respect the bound for the parameters in force at that step, draw from the
+    simulation's generator only, and advance the configuration exactly once (a cache that is not refreshed shows here)"""
+
+    name = "fb-sequence"
+
+    def cases(self, rng, tier):
+        n = 80 if tier == "quick" else 1500
+        syms = ["H", "C", "O", "Cu", "Au", "U"]
+        for _ in range(n):
+            na = rng.randint(1, 4)
+            symbols = [rng.choice(syms) for _ in range(na)]
+            ops = []
+            for _ in range(rng.randint(2, 6)):
+                kind = rng.choice(["step", "step", "masses", "masses-none", "power", "delta", "temperature", "forces"])
+                if kind == "masses":
+                    ops.append(["masses", [rng.choice([1.0, 2.0, 12.0, 63.5, 197.0, 238.0]) * rng.uniform(0.5, 2) for _ in range(na)]])
+                elif kind == "masses-none":
+                    ops.append(["masses-none", [rng.uniform(1, 250) for _ in range(na)]])
+                elif kind == "power":
+                    ops.append(["power", rng.choice([0.0, 0.25, 0.5, 1.0, rng.uniform(0, 1)])])
+                elif kind == "delta":
+                    ops.append(["delta", 10 ** rng.uniform(-3, 0)])
+                elif kind == "temperature":
+                    ops.append(["temperature", 10 ** rng.uniform(0, 4)])
+                elif kind == "forces":
+                    ops.append(["forces", [[rng.choice([0.0, 1.0, -1.0]) * 10 ** rng.uniform(-3, 3) for _ in range(3)] for _ in range(na)]])
+                else:
+                    ops.append(["step"])
+                ops.append(["step"])
+            yield {"symbols": symbols, "positions": [[rng.uniform(-3, 3) for _ in range(3)] for _ in range(na)],
+                   "forces": [[rng.choice([0.0, 1.0, -1.0]) * 10 ** rng.uniform(-3, 3) for _ in range(3)] for _ in range(na)],
+                   "delta": 10 ** rng.uniform(-3, 0), "T": 10 ** rng.uniform(0, 4), "seed": rng.randrange(2**31),
+                   "power": {"kind": "float", "value": rng.choice([0.25, 0.5, 1.0, 0.0])}, "masses": None, "ops": ops}
+
+    def real(self, case):
+        import numpy as np
+
+        fb, atoms, rec, trace = build(case)
+        out = []
+        for op in case["ops"]:
+            if op[0] == "masses":
+                fb.update_masses(np.array(op[1], dtype=float))
+            elif op[0] == "masses-none":
+                atoms.set_masses(op[1])
+                fb.update_masses()
+            elif op[0] == "power":
+                fb.masses_scaling_power = float(op[1])
+            elif op[0] == "delta":
+                fb.delta = float(op[1])
+            elif op[0] == "temperature":
+                fb.temperature = float(op[1])
+            elif op[0] == "forces":
+                atoms.calc.f = np.array(op[1], dtype=float)
+                atoms.calc.reset()
+            else:
+                p0 = atoms.get_positions().copy()
+                del trace[:]
+                n0 = int(fb.step_count)
+                fb.step()
+                dx = atoms.get_positions() - p0
+                m = np.broadcast_to(np.asarray(fb.shaped_masses, dtype=float), dx.shape)
+                bound = float(fb.delta) * (m.min() / m) ** float(fb.masses_scaling_power)
+                out.append({"dx": dx.tolist(), "bound": bound.tolist(), "set_positions": trace.count("set_positions"),
+                            "step_count_changed": int(fb.step_count) != n0, "unknown_rng": list(getattr(rec, "unknown", []))})
+        return {"steps": out}
+
+    def oracle(self, case, obs):
+        if "exception" in obs:
+            return [("fbseq:exception:" + obs["exception"], obs["message"] + obs.get("trace", "")[-300:])]
+        import numpy as np
+
+        out = []
+        for k, st in enumerate(obs["steps"]):
+            dx, b = np.abs(np.array(st["dx"])), np.array(st["bound"])
+            if np.any(dx > b * (1 + 1e-9) + 1e-15 * (1 + np.abs(np.array(case["positions"])).max())):
+                out.append(("fbseq:bound-after-parameter-change",
+                            f"step {k}: max |dx|/bound = {float((dx / b).max()):.3f} after ops {[o[0] for o in case['ops']]}"))
+            if st["set_positions"] != 1:
+                out.append(("fbseq:position-updates", f"step {k}: {st['set_positions']} set_positions calls"))
+            if st["step_count_changed"]:
+                out.append(("fbseq:step-count-touched", f"step {k}"))
+        return out[:4]
+
+    def classify(self, case, obs):
+        kinds = sorted({o[0] for o in case["ops"] if o[0] != "step"})
+        return "+".join(kinds) if kinds else None
+
+
 def suites(tier):
-    return [FBStep(), FBProbTie(), FBDensity()]
+    return [FBStep(), FBProbTie(), FBDensity(), FBSequence()]
